@@ -459,6 +459,14 @@ class SymExec:
                     self.delegated.append((pidx[s0['d']], pidx[n0['d']]))
                     nul = True
                 self.write(st, c, p, n, nul, 'memcpy of %s bytes' % n)
+        elif cn == 'memset' and len(args) == 3:
+            p = self.ptr_pos(args[0], st)
+            if p is not None:
+                n = self.lin(args[2], st)
+                if n is None:
+                    raise AnalysisBroken('OUT2: %s: memset length is not linear' % self.fn.where(c))
+                fill = const_val(args[1])
+                self.write(st, c, p, n, fill == 0 and not n.t and n.c >= 1, 'memset of %s bytes' % n)
         elif cn == 'sprintf' and args:
             p = self.ptr_pos(args[0], st)
             if p is not None:
